@@ -380,8 +380,8 @@ def _dirs(rng: random.Random):
     return lambda: rng.choice("LRN")
 
 
-def rand_dtm_table(rng: random.Random, max_states: int = 4):
-    names, isy, tsy, blank, finals, nonfinal, init = rand_tm_parts(rng, max_states)
+def rand_dtm_table(rng: random.Random, max_states: int = 4, min_states: int = 2):
+    names, isy, tsy, blank, finals, nonfinal, init = rand_tm_parts(rng, max_states, None, min_states)
     dens = rng.choice([0.3, 0.6, 0.9, 1.0])
     pick_dir = _dirs(rng)
     wblank = rng.choice([0.0, 0.2, 0.6])
@@ -415,8 +415,8 @@ def mntm1_from(kw, table) -> MNTM:
                              for q, row in table.items()}, **kw)
 
 
-def rand_ntm(rng: random.Random, max_states: int = 4) -> NTM:
-    names, isy, tsy, blank, finals, nonfinal, init = rand_tm_parts(rng, max_states)
+def rand_ntm(rng: random.Random, max_states: int = 4, min_states: int = 2) -> NTM:
+    names, isy, tsy, blank, finals, nonfinal, init = rand_tm_parts(rng, max_states, None, min_states)
     dens = rng.choice([0.4, 0.7, 0.9, 1.0])
     pick_dir = _dirs(rng)
     wblank = rng.choice([0.0, 0.2, 0.6])
@@ -464,7 +464,9 @@ def rand_mntm(rng: random.Random, max_states: int = 4, n_tapes: Optional[int] = 
             for _ in range(k):
                 moves = tuple((blank if rng.random() < wblank else rng.choice(tsy), pick_dir()) for _ in range(nt))
                 res.append((rng.choice(names), moves))
-            row[key] = res
+            if len(res) >= 1 and rng.random() < 0.12:
+                res.insert(rng.randrange(len(res) + 1), rng.choice(res))  # a repeated entry: path multiplicity
+            row[key] = tuple(res) if rng.random() < 0.12 else res            # lists may be given as tuples
         if row or q == init or rng.random() < 0.5:
             table[q] = row
     table.setdefault(init, {})
@@ -473,8 +475,8 @@ def rand_mntm(rng: random.Random, max_states: int = 4, n_tapes: Optional[int] = 
 
 
 def rand_input(rng: random.Random, m, max_len: int = 4) -> str:
-    """Mostly over the input alphabet; sometimes containing the blank or another tape symbol
-    (the library never checks the input string against `input_symbols`)."""
+    """Mostly over the input alphabet; sometimes containing the blank or another tape symbol, sometimes
+    a symbol outside the tape alphabet (the library never checks the input string against `input_symbols`)."""
     isy = sorted(m.input_symbols)
     pool = isy
     r = rng.random()
@@ -483,7 +485,13 @@ def rand_input(rng: random.Random, m, max_len: int = 4) -> str:
     n = rng.choice([0, 1, 1, 2, 2, 3, 3, max_len])
     if not pool:
         return ""
-    return "".join(rng.choice(pool) for _ in range(n))
+    w = "".join(rng.choice(pool) for _ in range(n))
+    if w and rng.random() < 0.08:
+        # a symbol outside the tape alphabet (never '^' / '_': those are C17's mark family)
+        f = next(c for c in "%@$&" if c not in m.tape_symbols)
+        k = rng.randrange(len(w))
+        w = w[:k] + f + w[k + 1:]
+    return w
 
 
 def tiny_nondet_tables(tape_syms: Sequence[str] = "0#") -> Iterator[Dict[str, Dict[str, list]]]:
